@@ -39,6 +39,7 @@ ASSUMPTIONS = ['reference = io.BytesIO() / io.StringIO() (lines end at \\n only)
                'writes are issued only when the reference position is at the end of the data (appending writes); seeks stay within 0..len',
                'READ_CHUNK_SIZE is a tuning knob and is varied per run (21333, 7, 3)']
 
+SELFTEST_MUTANT = 'bytes-len-without-flush'
 REQUIRED_PROBES = ['rollover_mid_history', 'scheduler_rollover', 'mfr_read_crosses_member_boundary',
                    'mfr_sized_read_after_seek0']
 iou = None
